@@ -4,7 +4,7 @@
     type_check_inside_call, the counting of mismatched_arg_count and the scan of bad_string_escape (13 of 17).
     The other four lints (if_same_then_else, ifs_same_cond, almost_swapped, multiple_statements) are covered by
     template verdicts in the correspondence run (testing, not proof). *)
-From Selene Require Import Lints.Closed Lints.ClosedSpec Lints.Escape.
+From Selene Require Import Lints.Closed Lints.ClosedSpec Lints.Escape Lints.Same Lints.SameSpec Lints.Lines.
 From Coq Require Import Lia.
 
 (** never reported on a false condition, literals judged by value *)
@@ -142,3 +142,86 @@ Theorem C04_escape_starts_at_backslash : forall q rb l off skip s e,
   In (s, e) (scan q rb l off skip) -> nth_error l (s - off) = Some 92%N.
 Proof. exact scan_starts_at_backslash. Qed.
 Print Assumptions C04_escape_starts_at_backslash.
+
+(** ** the "same text" lints (Lints/Same.v): ifs_same_cond, if_same_then_else, almost_swapped *)
+
+(** has_side_effects answers exactly "evaluating this performs a call" (function bodies excluded) *)
+Theorem C04_side_effects_exact : forall e, se_expr e = performs_call e.
+Proof. exact se_expr_exact. Qed.
+Print Assumptions C04_side_effects_exact.
+
+Theorem C04_same_cond_sound : forall n c o,
+  In (c, o) (same_cond_reports n) ->
+  exists c0 b eis els pre post, n = NStmt (SIf c0 b eis els) /\
+    c0 :: elseif_conds eis = pre ++ c :: post /\ In o pre /\
+    tx_expr o = tx_expr c /\ performs_call c = false /\ performs_call o = false.
+Proof. exact same_cond_sound. Qed.
+Print Assumptions C04_same_cond_sound.
+
+Theorem C04_same_cond_exact : forall n, List.length (same_cond_reports n) = spec_same_cond n.
+Proof. exact same_cond_exact. Qed.
+Print Assumptions C04_same_cond_exact.
+
+Theorem C04_same_cond_canonical : forall chunk c b c' b' r els,
+  In (NStmt (SIf c b (EiCons c' b' r) els)) (nodes_block chunk) ->
+  tx_expr c = tx_expr c' -> se_expr c = false -> se_expr c' = false ->
+  (1 <= n_same_cond (same_lint_counts chunk))%nat.
+Proof. exact same_cond_canonical. Qed.
+Print Assumptions C04_same_cond_canonical.
+
+Theorem C04_same_block_sound : forall n b o,
+  In (b, o) (same_block_reports n) ->
+  exists c0 b0 eis els pre post, n = NStmt (SIf c0 b0 eis els) /\
+    if_blocks b0 eis els = pre ++ b :: post /\ In o pre /\ tx_block o = tx_block b /\ block_has_stmts b = true.
+Proof. exact same_block_sound. Qed.
+Print Assumptions C04_same_block_sound.
+
+Theorem C04_same_block_exact : forall n, List.length (same_block_reports n) = spec_same_block n.
+Proof. exact same_block_exact. Qed.
+Print Assumptions C04_same_block_exact.
+
+Theorem C04_same_block_canonical : forall chunk c b eis b',
+  In (NStmt (SIf c b eis (OBSome b'))) (nodes_block chunk) ->
+  tx_block b = tx_block b' -> block_has_stmts b' = true ->
+  (1 <= n_same_block (same_lint_counts chunk))%nat.
+Proof. exact same_block_canonical. Qed.
+Print Assumptions C04_same_block_canonical.
+
+Theorem C04_swapped_sound : forall b n0 n1,
+  In (n0, n1) (swaps_of_block b) ->
+  exists ss l rng pre v1 e1 v2 e2 post, b = Block ss l rng /\
+    stmts_list ss = pre ++ assign1 v1 e1 :: assign1 v2 e2 :: post /\
+    n0 = vtext v1 /\ n1 = etext e1 /\ etext e2 = vtext v1 /\ vtext v2 = etext e1.
+Proof. exact swapped_sound. Qed.
+Print Assumptions C04_swapped_sound.
+
+Theorem C04_swapped_canonical : forall chunk ss l rng pre v1 e1 v2 e2 post,
+  In (Block ss l rng) (all_blocks chunk) ->
+  stmts_list ss = pre ++ assign1 v1 e1 :: assign1 v2 e2 :: post ->
+  se_var v1 = false -> se_var v2 = false -> etext e2 = vtext v1 -> vtext v2 = etext e1 ->
+  (1 <= n_swapped (same_lint_counts chunk))%nat.
+Proof. exact swapped_canonical. Qed.
+Print Assumptions C04_swapped_canonical.
+
+(** ** multiple_statements (Lints/Lines.v) *)
+Theorem C04_lines_sound : forall cfg evs id,
+  In id (reported (lines_run cfg evs)) ->
+  exists pre e post e0, evs = pre ++ e :: post /\ sv_id e = id /\ In e0 pre /\ sv_line e0 = sv_line e.
+Proof. exact lines_sound. Qed.
+Print Assumptions C04_lines_sound.
+
+Theorem C04_lines_canonical : forall cfg pre e1 mid1 e2 mid2 e3 post,
+  not_if e1 -> not_if e2 -> not_if e3 -> Forall not_if mid1 -> Forall not_if mid2 ->
+  sv_line e2 = sv_line e1 -> sv_line e3 = sv_line e1 ->
+  In (sv_id e3) (reported (lines_run cfg (pre ++ e1 :: mid1 ++ e2 :: mid2 ++ e3 :: post))).
+Proof. exact lines_canonical. Qed.
+Print Assumptions C04_lines_canonical.
+
+Theorem C04_lines_deny_complete : forall pre e post e0,
+  In e0 pre -> sv_line e0 = sv_line e -> In (sv_id e) (reported (lines_run ODeny (pre ++ e :: post))).
+Proof. exact lines_deny_complete. Qed.
+Print Assumptions C04_lines_deny_complete.
+
+Theorem C04_must_report_sound : forall cfg evs id, In id (must_report evs) -> In id (reported (lines_run cfg evs)).
+Proof. exact must_report_sound. Qed.
+Print Assumptions C04_must_report_sound.
